@@ -140,6 +140,7 @@ package engine
 //@ func intPartF
 //@   property C07
 //@   ensures[truncation] result == fp.rti(RTZ, x)
+//@   ensures[a-negative-number-truncated-to-zero-stays-negative-zero] x != 0.0 ==> same(result, fp.rti(RTZ, x))
 
 //@ func fractPartF
 //@   property C07
@@ -507,6 +508,16 @@ package engine
 //@   ensures[FF] x is Float && y is Float ==> err == nil && result == ite((x as Float) > (y as Float), y, x)
 
 
+//@ func integerPower
+//@   property C07
+//@   bind pw, pwerr = intPow#2
+//@   at-call intPow requires[the-base-given-is-raised] x is Integer && y is Integer && a0 == (x as Integer)
+//@   at-call intPow#2 requires[a-non-negative-exponent-is-passed-on-as-given] (y as Integer) >= 0 && a1 == (y as Integer)
+//@   at-call power requires[a-float-operand-sends-both-operands-to-the-float-power] !(x is Integer && y is Integer) && a0 == x && a1 == y
+//@   ensures[zero-to-a-negative-power-is-undefined] x is Integer && y is Integer && (x as Integer) == 0 && (y as Integer) < 0 ==> err == exceptionalValueUndefined
+//@   ensures[an-integer-other-than-one-and-minus-one-to-a-negative-power-is-no-integer] x is Integer && y is Integer && (y as Integer) < 0 && (x as Integer) != 0 && (x as Integer) != 1 && (x as Integer) != -1 ==> err != nil
+//@   ensures[a-non-negative-integer-exponent-yields-what-the-checked-repeated-squaring-yields] x is Integer && y is Integer && (y as Integer) >= 0 ==> called(pw) && err == pwerr && (pwerr == nil ==> result is Integer && (result as Integer) == pw)
+
 //@ ---------------------------------------------------------------- arithmetic comparison built-ins (C07)
 
 //@ spec fun numRel(a Number, b Number, ii bool, ifl bool, fi bool, ff bool) bool =
@@ -517,15 +528,46 @@ package engine
 //@ spec fun numLe(a Number, b Number) bool = numRel(a, b, (a as Integer) <= (b as Integer), f64(a as Integer) <= (b as Float), (a as Float) <= f64(b as Integer), (a as Float) <= (b as Float))
 
 //@ func eval
-//@   trusted
+//@   property C07
+//@   assumed-post
+//@   checks only at-call at-call-missing
+//@   nosafety
 //@   modifies nothing
 //@   ensures err == nil ==> result is Integer || result is Float
+//@   at-call (*Env).Resolve requires[the-expression-is-dereferenced-under-the-bindings-given] a0 == param(1) && a1 == param(0)
+//@   at-call eval requires[operands-are-evaluated-under-the-same-bindings] a1 == param(1)
+//@   bind x1, xerr1 = eval#1
+//@   bind x, xerr = eval#2
+//@   bind y, yerr = eval#3
+//@   at-call eval#1 requires[the-operand-of-a-unary-functor] a0 == Compound.Arg(local(t, Compound), 0)
+//@   at-call eval#2 requires[the-left-operand-of-a-binary-functor] a0 == Compound.Arg(local(t, Compound), 0)
+//@   at-call eval#3 requires[the-right-operand-of-a-binary-functor] a0 == Compound.Arg(local(t, Compound), 1)
+//@   at-call dynamic#1 requires[the-function-of-the-unary-functor-is-applied-to-the-value-of-its-operand] xerr1 == nil && a0 == x1 && fn == unaryFunctors[Compound.Functor(local(t, Compound))]
+//@   at-call dynamic#2 requires[the-function-of-the-binary-functor-is-applied-to-the-values-of-its-operands-in-order] xerr == nil && yerr == nil && a0 == x && a1 == y && fn == binaryFunctors[Compound.Functor(local(t, Compound))]
+
+//@ func Is
+//@   property C07
+//@   bind v, everr = eval#1
+//@   bind ans = Unify#1
+//@   at-call eval requires[the-expression-is-evaluated-under-the-caller-s-bindings] a0 == param(2) && a1 == param(4)
+//@   at-call Unify requires[the-value-of-the-expression-is-unified-with-the-first-argument] everr == nil && a1 == param(1) && a2 == v
+//@   at-call Unify requires[the-answer-goes-to-the-caller-s-continuation-under-the-caller-s-bindings] a0 == param(0) && a3 == param(3) && a4 == param(4)
+//@   calls k atmost 1
+//@   ensures[an-evaluation-error-is-raised] everr != nil ==> result != nil && result.err == everr
+//@   ensures[every-value-is-offered-to-the-first-argument] everr == nil ==> called(ans) && result == ans
 
 //@ func Equal
 //@   property C07
 //@   bind v1, e1 = eval#1
 //@   bind v2, e2 = eval#2
+//@   at-call eval#1 requires[the-left-side-is-evaluated-first] a0 == param(1)
+//@   at-call eval#2 requires[then-the-right-side] a0 == param(2)
+//@   at-call eval requires[both-sides-are-evaluated-under-the-caller-s-bindings] a1 == param(4)
 //@   calls k atmost 1
+//@   onk[continues-under-the-caller-s-bindings] kenv == param(4)
+//@   nok[the-error-of-the-left-side-is-raised] e1 != nil ==> result != nil && result.err == e1
+//@   nok[the-error-of-the-right-side-is-raised] called(e2) && e2 != nil ==> result != nil && result.err == e2
+//@   nok[otherwise-the-goal-just-fails] e1 == nil && e2 == nil ==> result == falsePromise
 //@   onk[holds] e1 == nil && e2 == nil && numEq(v1, v2)
 //@   nok[fails] e1 == nil && e2 == nil ==> !numEq(v1, v2)
 
@@ -533,7 +575,14 @@ package engine
 //@   property C07
 //@   bind v1, e1 = eval#1
 //@   bind v2, e2 = eval#2
+//@   at-call eval#1 requires[the-left-side-is-evaluated-first] a0 == param(1)
+//@   at-call eval#2 requires[then-the-right-side] a0 == param(2)
+//@   at-call eval requires[both-sides-are-evaluated-under-the-caller-s-bindings] a1 == param(4)
 //@   calls k atmost 1
+//@   onk[continues-under-the-caller-s-bindings] kenv == param(4)
+//@   nok[the-error-of-the-left-side-is-raised] e1 != nil ==> result != nil && result.err == e1
+//@   nok[the-error-of-the-right-side-is-raised] called(e2) && e2 != nil ==> result != nil && result.err == e2
+//@   nok[otherwise-the-goal-just-fails] e1 == nil && e2 == nil ==> result == falsePromise
 //@   onk[holds] e1 == nil && e2 == nil && !numEq(v1, v2)
 //@   nok[fails] e1 == nil && e2 == nil ==> numEq(v1, v2)
 
@@ -541,7 +590,14 @@ package engine
 //@   property C07
 //@   bind v1, e1 = eval#1
 //@   bind v2, e2 = eval#2
+//@   at-call eval#1 requires[the-left-side-is-evaluated-first] a0 == param(1)
+//@   at-call eval#2 requires[then-the-right-side] a0 == param(2)
+//@   at-call eval requires[both-sides-are-evaluated-under-the-caller-s-bindings] a1 == param(4)
 //@   calls k atmost 1
+//@   onk[continues-under-the-caller-s-bindings] kenv == param(4)
+//@   nok[the-error-of-the-left-side-is-raised] e1 != nil ==> result != nil && result.err == e1
+//@   nok[the-error-of-the-right-side-is-raised] called(e2) && e2 != nil ==> result != nil && result.err == e2
+//@   nok[otherwise-the-goal-just-fails] e1 == nil && e2 == nil ==> result == falsePromise
 //@   onk[holds] e1 == nil && e2 == nil && numLt(v1, v2)
 //@   nok[fails] e1 == nil && e2 == nil ==> !numLt(v1, v2)
 
@@ -549,7 +605,14 @@ package engine
 //@   property C07
 //@   bind v1, e1 = eval#1
 //@   bind v2, e2 = eval#2
+//@   at-call eval#1 requires[the-left-side-is-evaluated-first] a0 == param(1)
+//@   at-call eval#2 requires[then-the-right-side] a0 == param(2)
+//@   at-call eval requires[both-sides-are-evaluated-under-the-caller-s-bindings] a1 == param(4)
 //@   calls k atmost 1
+//@   onk[continues-under-the-caller-s-bindings] kenv == param(4)
+//@   nok[the-error-of-the-left-side-is-raised] e1 != nil ==> result != nil && result.err == e1
+//@   nok[the-error-of-the-right-side-is-raised] called(e2) && e2 != nil ==> result != nil && result.err == e2
+//@   nok[otherwise-the-goal-just-fails] e1 == nil && e2 == nil ==> result == falsePromise
 //@   onk[holds] e1 == nil && e2 == nil && numLt(v2, v1)
 //@   nok[fails] e1 == nil && e2 == nil ==> !numLt(v2, v1)
 
@@ -557,7 +620,14 @@ package engine
 //@   property C07
 //@   bind v1, e1 = eval#1
 //@   bind v2, e2 = eval#2
+//@   at-call eval#1 requires[the-left-side-is-evaluated-first] a0 == param(1)
+//@   at-call eval#2 requires[then-the-right-side] a0 == param(2)
+//@   at-call eval requires[both-sides-are-evaluated-under-the-caller-s-bindings] a1 == param(4)
 //@   calls k atmost 1
+//@   onk[continues-under-the-caller-s-bindings] kenv == param(4)
+//@   nok[the-error-of-the-left-side-is-raised] e1 != nil ==> result != nil && result.err == e1
+//@   nok[the-error-of-the-right-side-is-raised] called(e2) && e2 != nil ==> result != nil && result.err == e2
+//@   nok[otherwise-the-goal-just-fails] e1 == nil && e2 == nil ==> result == falsePromise
 //@   onk[holds] e1 == nil && e2 == nil && numLe(v1, v2)
 //@   nok[fails] e1 == nil && e2 == nil ==> !numLe(v1, v2)
 
@@ -565,7 +635,14 @@ package engine
 //@   property C07
 //@   bind v1, e1 = eval#1
 //@   bind v2, e2 = eval#2
+//@   at-call eval#1 requires[the-left-side-is-evaluated-first] a0 == param(1)
+//@   at-call eval#2 requires[then-the-right-side] a0 == param(2)
+//@   at-call eval requires[both-sides-are-evaluated-under-the-caller-s-bindings] a1 == param(4)
 //@   calls k atmost 1
+//@   onk[continues-under-the-caller-s-bindings] kenv == param(4)
+//@   nok[the-error-of-the-left-side-is-raised] e1 != nil ==> result != nil && result.err == e1
+//@   nok[the-error-of-the-right-side-is-raised] called(e2) && e2 != nil ==> result != nil && result.err == e2
+//@   nok[otherwise-the-goal-just-fails] e1 == nil && e2 == nil ==> result == falsePromise
 //@   onk[holds] e1 == nil && e2 == nil && numLe(v2, v1)
 //@   nok[fails] e1 == nil && e2 == nil ==> !numLe(v2, v1)
 
@@ -1451,6 +1528,10 @@ package engine
 
 //@ func float
 //@   property C05 C07
+//@   at-call math/big.ParseFloat requires[the-digits-given-are-read-in-base-ten] a0 == param(1) && a1 == 10
+//@   at-call math/big.NewFloat requires[the-literal-keeps-the-sign-given] same(a0, param(0))
+//@   at-call (*math/big.Float).Mul requires[the-magnitude-read-is-multiplied-by-the-sign-in-place] a0 == local(bf, *big.Float) && (a1 == a0 || a2 == a0)
+//@   at-call (*math/big.Float).Float64 requires[the-signed-value-is-rounded-to-a-double] a0 == local(bf, *big.Float)
 
 //@ -- enum -> atom tables: the index is a valid member of the enumeration (type invariant), so the look-up cannot panic
 //@ type validType invariant[valid] self <= 14
